@@ -34,6 +34,7 @@ J c19_to_json(const C19Case& c) {
   j.set("faults", fl);
   j.set("chunk", c.chunk); j.set("chunk2", c.chunk2);
   if (c.premain_world >= 0) j.set("premain_world", c.premain_world);
+  if (c.secure) j.set("secure", true);
   J sl = J::arr(); sl.push("ops"); sl.push("faults");
   j.set("shrink_lists", sl);
   return j;
@@ -51,6 +52,7 @@ bool c19_from_json(const J& j, C19Case* c) {
   for (const J& jf : j.at("faults").a) { C19Fault f; f.k = jf.gets("k"); f.open_index = static_cast<int>(jf.geti("open_index")); f.at = jf.geti("at"); f.err = static_cast<int>(jf.geti("err")); f.transient = jf.getb("transient"); c->faults.push_back(f); }
   c->chunk = static_cast<int>(j.geti("chunk", 4096)); c->chunk2 = static_cast<int>(j.geti("chunk2"));
   c->premain_world = static_cast<int>(j.geti("premain_world", -1));
+  c->secure = j.getb("secure");
   return true;
 }
 
@@ -388,6 +390,7 @@ C19Case gen_c19(const std::string& part, const std::string& tier, uint64_t seed,
   // A few environments the cross product does not have.
   if (part == "random" && r.chance(0.05)) { c.tzdir_set = true; c.tzdir = r.pick(std::vector<std::string>{"/sim/zi:/usr/share/zoneinfo", "/sim/zi ", " /sim/zi", "/sim/zi/.", "/sim/zi/Dir/..", "//sim//zi", "/sim/zi/X"}); }
   if (part == "random" && r.chance(0.05)) { c.tz_set = true; c.tz = r.pick(std::vector<std::string>{"EST5EDT", "EST5EDT,M3.2.0,M11.1.0", "<+03>-3", "file::X", ":file:X", "UTC0", ":UTC", "Fixed/UTC+00:60:00", "Fat", ":Fat", "A%sB", "~/X"}); }
+  c.secure = r.chance(0.15);
   static const std::vector<int> chunks = {1, 2, 3, 7, 64, 512, 4096, 65536};
   c.chunk = r.pick(chunks);
   if (part == "faulted") {
@@ -505,9 +508,10 @@ Outcome exec_c19(const C19Case& c, bool keep_log, Stats* stats) {
   int64_t steps = 0;
   bool env_was_read = false;
 
-  auto run_world = [&](int chunk, std::vector<OpResult>* results, std::vector<std::string>* opens) {
+  auto run_world = [&](int chunk, std::vector<OpResult>* results, std::vector<std::string>* opens, bool secure = false) {
     clear_zone_cache();
     env_reset(); fs_reset();
+    priv.active = true; priv.secure = secure;
     clk.active = true;   // a fixed simulated date for the whole run (references included): replay does not depend on the day it is run
     back.clear();
     for (const FsSpec& f : c.fs) {
@@ -586,7 +590,8 @@ Outcome exec_c19(const C19Case& c, bool keep_log, Stats* stats) {
     env_was_read = true;
     if (stats) stats->add("probe.worlds_executed_before_main");
   } else
-  run_world(c.chunk, &res1, &opens1);
+  run_world(c.chunk, &res1, &opens1, c.secure);
+  const int64_t priv_reads = priv.reads;
   set_phase("oracle");
   ev("env TZDIR=" + (c.tzdir_set ? "'" + c.tzdir + "'" : "(unset)") + " TZ=" + (c.tz_set ? "'" + c.tz + "'" : "(unset)") + " LOCALTIME=" + (c.lt_set ? "'" + c.lt + "'" : "(unset)"));
   int fopen_count = static_cast<int>(opens1.size());
@@ -658,10 +663,15 @@ Outcome exec_c19(const C19Case& c, bool keep_log, Stats* stats) {
       if (render(res1[i]) != render(res2[i])) { viol("c19:resolution", c.ops[i].op + "('" + c.ops[i].name + "') asked again after main() started", "before main(): " + render(res1[i]) + "; now: " + render(res2[i])); break; }
   }
   if (c.chunk2 > 0 && !faulted && !out.poisoned) {
-    run_world(c.chunk2, &res2, &opens2);
+    // The same world again with a different read size and the other kind of process credentials: nothing may change.
+    run_world(c.chunk2, &res2, &opens2, !c.secure);
     set_phase("oracle");
+    auto creds = [](bool s) { return std::string(s ? "set-ID process (AT_SECURE=1, euid 0, uid 1000)" : "plain process"); };
     for (size_t i = 0; i < c.ops.size(); ++i)
-      if (render(res1[i]) != render(res2[i])) { viol("c19:chunk-dependence", c.ops[i].op + "('" + c.ops[i].name + "')", "read chunk " + std::to_string(c.chunk) + ": " + render(res1[i]) + "; read chunk " + std::to_string(c.chunk2) + ": " + render(res2[i])); break; }
+      if (render(res1[i]) != render(res2[i])) {
+        viol("c19:chunk-dependence", c.ops[i].op + "('" + c.ops[i].name + "')", "read chunk " + std::to_string(c.chunk) + ", " + creds(c.secure) + ": " + render(res1[i]) + "; read chunk " + std::to_string(c.chunk2) + ", " + creds(!c.secure) + ": " + render(res2[i]));
+        break;
+      }
   }
   // Seam sanity: a world that resolves a non-built-in name must have reached the simulated fopen, and
   // local_time_zone() must have read $TZ through the simulated getenv.  If not, the library no longer uses
@@ -687,6 +697,8 @@ Outcome exec_c19(const C19Case& c, bool keep_log, Stats* stats) {
     stats->add("fopen_calls", fopen_count);
     stats->add("cookie_reads", fs.cookie_reads);
     stats->add(faulted ? "worlds_faulted" : "worlds_fault_free");
+    if (c.secure || c.chunk2 > 0) stats->add("worlds_also_run_as_set_id_process");
+    if (priv_reads || priv.reads) stats->add("probe.library_asked_for_process_credentials", priv_reads + priv.reads);
     for (const C19Fault& f : c.faults) stats->add("fault_configured." + f.k);
     for (auto& kv : rt.faults_fired) stats->add("fault." + kv.first, kv.second);   // fired = the injected error was actually returned to glibc
     for (const OpResult& r : res1) stats->add(r.is_utc ? "probe.result_utc" : "probe.result_zone");
